@@ -187,3 +187,53 @@ Proof. exists [2; 3]. eexists. split; [reflexivity|]. cbn. discriminate. Qed.
 Theorem prod_keepdim_dim0_refuted :
   exists bs, front RProd bs None (DimInt 0) KdTrue = Raised /\ norm_dim (List.length bs) 0 = Some 0.
 Proof. exists [2; 3]. split; reflexivity. Qed.
+
+(* ========== prod(dim, keepdim=True): unsqueeze of the reduced result restores the dim, except for dim = 0 ========== *)
+Lemma reduce_from_past {A} (one : option A) k : forall (l : list A) j, k < j -> reduce_from one j l [k] = l.
+Proof.
+  induction l as [|x l IH]; intros j H; cbn; [reflexivity|].
+  replace (Nat.eqb j k) with false by (symmetry; apply Nat.eqb_neq; lia). cbn. now rewrite IH by lia.
+Qed.
+
+Lemma insert_restores : forall (l : list nat) i d, d < List.length l ->
+  insert_at d 1 (reduce_from None i l [i + d]) = reduce_from (Some 1) i l [i + d].
+Proof.
+  induction l as [|x l IH]; intros i d H; cbn in H; [lia|]. destruct d as [|d].
+  - rewrite Nat.add_0_r. cbn. rewrite Nat.eqb_refl. cbn. now rewrite !reduce_from_past by lia.
+  - cbn. replace (Nat.eqb i (i + S d)) with false by (symmetry; apply Nat.eqb_neq; lia). cbn.
+    replace (i + S d) with (S i + d) by lia. f_equal. apply IH. lia.
+Qed.
+
+Lemma reduce_none_length : forall (l : list nat) i d, d < List.length l ->
+  List.length (reduce_from None i l [i + d]) = List.length l - 1.
+Proof.
+  induction l as [|x l IH]; intros i d H; cbn in H; [lia|]. destruct d as [|d].
+  - rewrite Nat.add_0_r. cbn. rewrite Nat.eqb_refl. cbn. rewrite reduce_from_past by lia. lia.
+  - cbn. replace (Nat.eqb i (i + S d)) with false by (symmetry; apply Nat.eqb_neq; lia). cbn.
+    replace (i + S d) with (S i + d) by lia. rewrite IH by lia. lia.
+Qed.
+
+Theorem prod_keepdim_nonzero (bs : shape) z d :
+  norm_dim (List.length bs) z = Some d -> z <> 0%Z ->
+  exists r, front RProd bs None (DimInt z) KdTrue = Ok r /\ ro_bs r = torch_reduce bs [d] true /\
+            ro_call r = LcDim (PInt (Z.of_nat d)) KdFalse /\ ro_post r = PostUnsqueeze d.
+Proof.
+  intros Hn Hz. unfold front. rewrite (cast_reduction_single bs None z d true Hn). cbn [kd_truthy option_map].
+  replace (Z.eqb z 0) with false by (symmetry; now apply Z.eqb_neq).
+  pose proof (norm_dim_lt _ _ _ Hn) as Hd.
+  unfold td_unsqueeze. cbn [ro_bs ro_names ro_call].
+  unfold torch_reduce.
+  assert (Hl : List.length (reduce_from None 0 bs [d]) = List.length bs - 1) by (apply (reduce_none_length bs 0 d Hd)).
+  rewrite Hl.
+  assert (Hnd : (if (z <? 0)%Z then (Z.of_nat (List.length bs - 1) + z + 1)%Z else z) = Z.of_nat d).
+  { unfold norm_dim in Hn. destruct ((- Z.of_nat (List.length bs) <=? z) && (z <? Z.of_nat (List.length bs)))%Z eqn:E; [|discriminate].
+    injection Hn as Hn. destruct (z <? 0)%Z eqn:E1.
+    - assert (z mod Z.of_nat (List.length bs) = Z.of_nat (List.length bs) + z)%Z.
+      { symmetry. apply (Z.mod_unique z (Z.of_nat (List.length bs)) (-1)); lia. }
+      lia.
+    - rewrite Z.mod_small in Hn by lia. lia. }
+  rewrite Hnd.
+  replace ((Z.of_nat d >? Z.of_nat (List.length bs - 1)) || (Z.of_nat d <? 0))%Z with false by lia.
+  rewrite Nat2Z.id. eexists. split; [reflexivity|]. cbn [ro_bs ro_call ro_post]. split; [|split; reflexivity].
+  apply (insert_restores bs 0 d Hd).
+Qed.
